@@ -144,6 +144,31 @@ Proof.
   - exists 3%nat. split; vm_compute; reflexivity.
 Qed.
 
+(* ------------------------------------------------------------------ integer bounds
+   `Byte` (0..255 -> u8), `M.count` (uint8 with minimum 1 -> NonZeroU8), `M.delta`
+   (exclusiveMinimum -129, maximum 127 -> i8), `M.big` (10..20 -> i64).  T_int is the real dump
+   (corpus/convert/int_bounds_example.json). *)
+Definition D_int : defs := [([66; 121; 116; 101]%N, (SObj (Some [TInteger]) None None None (mkNumv None (Some (Qmake (255)%Z 1%positive)) None (Some (Qmake (0)%Z 1%positive)) None) (mkStrv None None None) ItemsAbsent (@nil schema) None None None false (@nil (ustring * schema)) (@nil ustring) None None None None None None None None None None)); ([77]%N, (SObj (Some [TObject]) None None None (mkNumv None None None None None) (mkStrv None None None) ItemsAbsent (@nil schema) None None None false [([98; 105; 103]%N, (SObj (Some [TInteger]) None None None (mkNumv None (Some (Qmake (20)%Z 1%positive)) None (Some (Qmake (10)%Z 1%positive)) None) (mkStrv None None None) ItemsAbsent (@nil schema) None None None false (@nil (ustring * schema)) (@nil ustring) None None None None None None None None None None)); ([99; 111; 117; 110; 116]%N, (SObj (Some [TInteger]) (Some [117; 105; 110; 116; 56]%N) None None (mkNumv None (Some (Qmake (200)%Z 1%positive)) None (Some (Qmake (1)%Z 1%positive)) None) (mkStrv None None None) ItemsAbsent (@nil schema) None None None false (@nil (ustring * schema)) (@nil ustring) None None None None None None None None None None)); ([100; 101; 108; 116; 97]%N, (SObj (Some [TInteger]) None None None (mkNumv None (Some (Qmake (127)%Z 1%positive)) None None (Some (Qmake (-129)%Z 1%positive))) (mkStrv None None None) ItemsAbsent (@nil schema) None None None false (@nil (ustring * schema)) (@nil ustring) None None None None None None None None None None))] [[99; 111; 117; 110; 116]%N] None None None None None None None None None None))].
+Definition T_int : space := (mkSpace [(1%N, (mkEntry (DNewtype [66; 121; 116; 101]%N None 3%N CNone) (@nil ustring))); (2%N, (mkEntry (DStruct [77]%N None [(mkProp [98; 105; 103]%N RNone POptional 5%N); (mkProp [99; 111; 117; 110; 116]%N RNone PRequired 6%N); (mkProp [100; 101; 108; 116; 97]%N RNone POptional 8%N)] false) (@nil ustring))); (3%N, (mkEntry (DInteger [117; 56]%N) (@nil ustring))); (4%N, (mkEntry (DInteger [105; 54; 52]%N) (@nil ustring))); (5%N, (mkEntry (DOption 4%N) (@nil ustring))); (6%N, (mkEntry (DInteger [58; 58; 115; 116; 100; 58; 58; 110; 117; 109; 58; 58; 78; 111; 110; 90; 101; 114; 111; 85; 56]%N) (@nil ustring))); (7%N, (mkEntry (DInteger [105; 56]%N) (@nil ustring))); (8%N, (mkEntry (DOption 7%N) (@nil ustring)))] 9%N (mkSettings None (@nil ustring) false [58; 58; 32; 115; 116; 100; 32; 58; 58; 32; 99; 111; 108; 108; 101; 99; 116; 105; 111; 110; 115; 32; 58; 58; 32; 72; 97; 115; 104; 77; 97; 112]%N) false false false false (@nil ustring)).
+Definition v_int_ok : json := (JObj [([98; 105; 103]%N, (JInt (15)%Z)); ([99; 111; 117; 110; 116]%N, (JInt (200)%Z)); ([100; 101; 108; 116; 97]%N, (JInt (-128)%Z))]).
+
+Example C02F_int_in_frag : in_frag Sanitize.ascii_classes D_int = true.
+Proof. vm_compute. reflexivity. Qed.
+
+Example C02F_int_convert : convert_doc Sanitize.ascii_classes D_int = Some T_int.
+Proof. vm_compute. reflexivity. Qed.
+
+Example C02F_int_accepted : exists f, de no_re no_re T_int f 2%N v_int_ok <> None.
+Proof.
+  apply (C02F_fragment_sound Sanitize.ascii_classes no_re no_re no_re D_int T_int) with (r := [77]%N).
+  - intros f n s _ H. discriminate H.
+  - exact C02F_int_in_frag.
+  - exact C02F_int_convert.
+  - vm_compute. right. left. reflexivity.
+  - vm_compute. reflexivity.
+  - exists 3%nat. split; vm_compute; reflexivity.
+Qed.
+
 (* a by-value cycle (needs a Box from break_cycles) is outside the fragment *)
 Example C02F_cycle_out : in_frag Sanitize.ascii_classes D_cycle = false.
 Proof. vm_compute. reflexivity. Qed.
